@@ -227,14 +227,28 @@ package data
 // Points.Find is a deterministic function of the list contents and its arguments (findValue names the Value it
 // returns; that it is the value of the first matching point is not needed by its callers' contracts).
 //@ opaque func findValue(ps []Point, typ string, key string) float64 reads ps
+//@ opaque func findText(ps []Point, typ string, key string) string reads ps
 //@ func (Point).IsMatch
 //@   inline
 //@ func (Points).Find
-//@   props C06
+//@   props C06, C09
 //@   local ps data.Points#1
 //@   local typ string#1
 //@   local key string#2
-//@   assume-ensures bits64(res0.Value) == bits64(findValue(ps, typ, key))
+//@   assume-ensures bits64(res0.Value) == bits64(findValue(ps, typ, key)) && res0.Text == findText(ps, typ, key)
 //@   loop 1:
 //@     invariant -1 <= rangeindex && rangeindex < len(ps) || rangeindex == -1
 //@     decreases len(ps) - rangeindex
+
+//@ func (*Points).Text
+//@   props C09
+//@   requires ps != nil
+//@   ensures [C09] res0 == findText(*ps, typ, key)
+//@ func (*NodeEdge).ToNode
+//@   props C09
+//@   requires n != nil
+//@   ensures [C09] result.ID == n.ID && result.Type == n.Type && sameSlice(result.Points, n.Points)
+//@ func (*Node).ToUser
+//@   props C09
+//@   requires n != nil
+//@   ensures [C09] result.ID == n.ID && result.Email == findText(n.Points, "email", "") && result.Pass == findText(n.Points, "pass", "")
